@@ -319,6 +319,10 @@ func (r *Runner) runHandler(bind int, name string, e *am.Event) bool {
 		res := r.issue(q)
 		r.push(Event{Kind: "N", MutKind: q.kind, Called: q.states, HasArgs: q.hasArgs, QLen: ql, ResStr: resStr(res)})
 	}
+	if strings.HasPrefix(act, "detach:") {
+		r.M.HandlersDetach("b" + act[7:])
+		return true
+	}
 	switch act {
 	case "f":
 		return false
